@@ -42,7 +42,10 @@ class VLayer(nn.Module):
     w = self.param('w', nn.with_partitioning(nn.initializers.normal(1.0),
                                              self.names), self.shape)
     u = self.param('u', nn.initializers.ones, (2,) * len(self.shape))  # unboxed
-    return x * (1.0 + jnp.sum(w) * 0.1) + jnp.sum(u)
+    # a boxed variable of a second collection (may be stacked on another axis)
+    s = self.variable('stats', 's', nn.with_partitioning(
+        lambda: jnp.full(self.shape, 0.5), self.names))
+    return x * (1.0 + jnp.sum(w) * 0.1) + jnp.sum(u) + 0.01 * jnp.sum(s.value)
 
 
 class SLayer(nn.Module):
@@ -54,7 +57,10 @@ class SLayer(nn.Module):
     w = self.param('w', nn.with_partitioning(nn.initializers.normal(1.0),
                                              self.names), self.shape)
     u = self.param('u', nn.initializers.ones, (2,) * len(self.shape))
-    return c * (1.0 + jnp.sum(w) * 0.1) + jnp.sum(u), None
+    s = self.variable('stats', 's', nn.with_partitioning(
+        lambda: jnp.full(self.shape, 0.5), self.names))
+    return (c * (1.0 + jnp.sum(w) * 0.1) + jnp.sum(u)
+            + 0.01 * jnp.sum(s.value)), None
 
 
 def insert(t, k, v):
@@ -70,6 +76,10 @@ def c19_case():
       'structure': st.sampled_from(['scan', 'vmap', 'scan_of_vmap',
                                     'vmap_of_scan']),
       'k_inner': st.integers(0, r), 'k_outer': st.integers(0, r + 1),
+      # stacking axes of the second collection ('stats'); None = same as params
+      'k2_inner': st.one_of(st.none(), st.integers(0, r)),
+      'k2_outer': st.one_of(st.none(), st.integers(0, r + 1)),
+      'stats_first': st.booleans(),
       # the stacked axis may be left unsharded: partition name None
       'pn_none': st.sampled_from([(False, False), (False, False),
                                   (True, False), (False, True), (True, True)]),
@@ -82,45 +92,67 @@ def build_linen(case, k_inner, k_outer):
   sr = {'params': True}
   vm_none, sc_none = case.get('pn_none', (False, False))
   VM, SC = (None if vm_none else 'vm'), (None if sc_none else 'sc')
+  r = len(shape)
+  k2i = case.get('k2_inner')
+  k2i = k_inner if k2i is None else min(k2i, r)
+  k2o = case.get('k2_outer')
+  k2o = k_outer if k2o is None else min(k2o, r + 1)
+
+  def va(kp, ks):
+    items = [('params', kp), ('stats', ks)]
+    return dict(items[::-1] if case.get('stats_first') else items)
   if s == 'vmap':
-    cls = nn.vmap(VLayer, variable_axes={'params': k_inner}, split_rngs=sr,
+    cls = nn.vmap(VLayer, variable_axes=va(k_inner, k2i), split_rngs=sr,
                   in_axes=0, out_axes=0, metadata_params={PN: VM})
     mod = cls(names=names, shape=shape)
     args = (jnp.ones((N_VMAP, 2)),)
     exp_names = insert(names, k_inner, VM)
     exp_shape = insert(shape, k_inner, N_VMAP)
+    exp2 = (insert(names, k2i, VM), insert(shape, k2i, N_VMAP))
   elif s == 'scan':
-    cls = nn.scan(SLayer, variable_axes={'params': k_inner}, split_rngs=sr,
+    cls = nn.scan(SLayer, variable_axes=va(k_inner, k2i), split_rngs=sr,
                   length=N_SCAN, metadata_params={PN: SC})
     mod = cls(names=names, shape=shape)
     args = (jnp.ones((2,)), None)
     exp_names = insert(names, k_inner, SC)
     exp_shape = insert(shape, k_inner, N_SCAN)
+    exp2 = (insert(names, k2i, SC), insert(shape, k2i, N_SCAN))
   elif s == 'scan_of_vmap':
-    inner = nn.vmap(SLayer, variable_axes={'params': k_inner}, split_rngs=sr,
+    inner = nn.vmap(SLayer, variable_axes=va(k_inner, k2i), split_rngs=sr,
                     in_axes=(0, None), out_axes=0, metadata_params={PN: VM})
-    cls = nn.scan(inner, variable_axes={'params': k_outer}, split_rngs=sr,
+    cls = nn.scan(inner, variable_axes=va(k_outer, k2o), split_rngs=sr,
                   length=N_SCAN, metadata_params={PN: SC})
     mod = cls(names=names, shape=shape)
     args = (jnp.ones((N_VMAP, 2)), None)
     exp_names = insert(insert(names, k_inner, VM), k_outer, SC)
     exp_shape = insert(insert(shape, k_inner, N_VMAP), k_outer, N_SCAN)
+    exp2 = (insert(insert(names, k2i, VM), k2o, SC),
+            insert(insert(shape, k2i, N_VMAP), k2o, N_SCAN))
   else:
-    inner = nn.scan(SLayer, variable_axes={'params': k_inner}, split_rngs=sr,
+    inner = nn.scan(SLayer, variable_axes=va(k_inner, k2i), split_rngs=sr,
                     length=N_SCAN, metadata_params={PN: SC})
-    cls = nn.vmap(inner, variable_axes={'params': k_outer}, split_rngs=sr,
+    cls = nn.vmap(inner, variable_axes=va(k_outer, k2o), split_rngs=sr,
                   in_axes=(0, None), out_axes=0, metadata_params={PN: VM})
     mod = cls(names=names, shape=shape)
     args = (jnp.ones((N_VMAP, 2)), None)
     exp_names = insert(insert(names, k_inner, SC), k_outer, VM)
     exp_shape = insert(insert(shape, k_inner, N_SCAN), k_outer, N_VMAP)
-  return mod, args, exp_names, exp_shape
+    exp2 = (insert(insert(names, k2i, SC), k2o, VM),
+            insert(insert(shape, k2i, N_SCAN), k2o, N_VMAP))
+  return mod, args, exp_names, exp_shape, exp2
 
 
 def check_linen(case, k_inner, k_outer, ctx):
-  mod, args, exp_names, exp_shape = build_linen(case, k_inner, k_outer)
+  mod, args, exp_names, exp_shape, exp2 = build_linen(case, k_inner, k_outer)
   with sut('init'):
     V = mod.init(jax.random.key(case['seed']), *args)
+  # the second collection carries its own stacking axes
+  sbox = V['stats']['s']
+  require(isinstance(sbox, nn.Partitioned) and tuple(sbox.names) == exp2[0]
+          and tuple(sbox.value.shape) == exp2[1], lambda: "collection 'stats' "
+          f'(stacked at its own axes): names {getattr(sbox, "names", None)} / '
+          f'shape {np.shape(getattr(sbox, "value", sbox))}, expected '
+          f'{exp2[0]} / {exp2[1]}')
   box = V['params']['w']
   require(isinstance(box, nn.Partitioned), 'variable lost its Partitioned box')
   val = box.value
@@ -142,6 +174,8 @@ def check_linen(case, k_inner, k_outer, ctx):
           f'{spec["params"]["w"]} != {P(*exp_names)}')
   require(spec['params']['u'] == P(), 'unboxed array must get a replicated '
           'spec')
+  require(spec['stats']['s'] == P(*exp2[0]), lambda: 'partition spec of '
+          f"stats/s {spec['stats']['s']} != {P(*exp2[0])}")
   # apply: boxed variables compute like their raw arrays
   with sut('apply'):
     y = mod.apply(V, *args)
@@ -152,7 +186,13 @@ def check_linen(case, k_inner, k_outer, ctx):
           'from their raw arrays')
   # a mutable apply returns boxes with the same names again
   with sut('apply(mutable)'):
-    _, upd = mod.apply(V, *args, mutable=['params'])
+    _, upd = mod.apply(V, *args, mutable=['params', 'stats'])
+  b3 = upd['stats']['s']
+  require(isinstance(b3, nn.Partitioned) and tuple(b3.names) == exp2[0]
+          and tuple(b3.value.shape) == exp2[1],
+          lambda: f'after apply the stats box has names '
+          f'{getattr(b3, "names", None)} / shape '
+          f'{np.shape(getattr(b3, "value", b3))}, expected {exp2}')
   b2 = upd['params']['w']
   require(isinstance(b2, nn.Partitioned) and tuple(b2.names) == exp_names
           and tuple(b2.value.shape) == exp_shape,
@@ -166,7 +206,8 @@ def check_linen(case, k_inner, k_outer, ctx):
         'None) under nn.scan, nn.vmap, scan-of-vmap and vmap-of-scan with '
         'metadata_params partition names (or None: unsharded stacking axis) '
         'and every non-negative stacking axis '
-        '0..rank: after init and after apply, len(names) == ndim, the stacked '
+        '0..rank, with a boxed variable of a second collection stacked along '
+        'its own (possibly different) axes: after init and after apply, len(names) == ndim, the stacked '
         'dimension sits exactly at the inserted name, names equal the expected '
         'insertion order, get_partition_spec returns them (replicated for '
         'unboxed arrays), and outputs equal those on the unboxed variables; '
@@ -177,7 +218,9 @@ def linen_stacking(case, ctx):
   nested = case['structure'] in ('scan_of_vmap', 'vmap_of_scan')
   k_outer = min(case['k_outer'], r + 1) if nested else 0
   check_linen(case, k_inner, k_outer, ctx)
-  ctx.note(labels=[case['structure'], f'ki{k_inner}', f'ko{k_outer}'] + (
+  ctx.note(labels=[case['structure'], f'ki{k_inner}', f'ko{k_outer}',
+                   'two-axes' if case.get('k2_inner') not in (None, k_inner)
+                   else 'one-axis'] + (
       ['unsharded-stack-axis'] if any(case.get('pn_none', (0, 0))) else []),
            nontrivial=nested or k_inner > 0)
 
@@ -420,7 +463,7 @@ def known_probes(case, ctx):
   try:
     # stacking on the last array dimension: names must end with the
     # partition name
-    mod, args, _, _ = build_linen(case, -1, 0)
+    mod, args, _, _, _ = build_linen(case, -1, 0)
     V = mod.init(jax.random.key(0), *args)
     box = V['params']['w']
     pos = box.names.index('sc')
